@@ -6,4 +6,5 @@ INIT Init
 NEXT Next
 INVARIANT Inv
 INVARIANT Emit
+PROPERTY StepOK
 CHECK_DEADLOCK FALSE
